@@ -603,6 +603,19 @@ def listed_findings():
     return _KNOWN["ids"]
 
 
+def model_fixes():
+    """proposed fixes the integrator has applied to /repo: `model_fixes` of harness/meta/C05.json (the
+    parser model then follows the fixed code: Syms.fixF3 / fixF4)"""
+    if "fixes" not in _KNOWN:
+        try:
+            _KNOWN["fixes"] = list(json.load(open(os.path.join(HERE, "meta", "C05.json"))).get("model_fixes", []))
+        except Exception:
+            _KNOWN["fixes"] = []
+        if os.environ.get("C05_MODEL_FIXES"):
+            _KNOWN["fixes"] = os.environ["C05_MODEL_FIXES"].split(",")
+    return _KNOWN["fixes"]
+
+
 def run_table(rules, t, memo):
     """bottom-up run over the library's rule dict (dict.get only; never DFTA.read)"""
     r = memo.get(t, memo)
@@ -773,6 +786,7 @@ def check(case, M):
             tags.append("tok:" + (a[0] if a[0] not in ("cnt", "sub") else a[0] + "-" + a[1]))
         if not is_sk and it["ast"][0] != "func":
             odd = True
+    reg -= set(model_fixes())
     for r in sorted(reg):
         tags.append("region:" + r)
     if exception_region:
@@ -886,7 +900,7 @@ def check(case, M):
         return res
     prim_syms = [P for P in cfg.primitives_used()]
     var_syms = cfg.variables()
-    ans = ask(M, [Sym("c05.sharpen"), wcfg, [W.sym_wire(p) for p in prim_syms], [W.sym_wire(v) for v in var_syms],
+    ans = ask(M, [Sym("c05.sharpen"), model_fixes(), wcfg, [W.sym_wire(p) for p in prim_syms], [W.sym_wire(v) for v in var_syms],
                   strings, [Sym("some"), sketch_text] if sk_item else [Sym("none")], wprogs])
     stage = None
     if ans[0] == "fail":
